@@ -289,7 +289,7 @@ def push_stage(pid, tier, rundir):
     info = dict(model_states=dist, scenarios=0, events=0, requests=0, cmds=[])
     for sz in (1, 2):
         cfg = f'{rundir}/pushgen{sz}.cfg'
-        open(cfg, 'w').write(f'SPECIFICATION GSpec\nCONSTANTS\n  Size = {sz}\n  Msgs <- MCMsgs\nINVARIANTS\n  Emit\n  GDone\n')
+        open(cfg, 'w').write(f'SPECIFICATION GSpec\nCONSTANTS\n  Size = {sz}\n  Msgs <- MCMsgs\n  Deep = {"TRUE" if tier == "thorough" else "FALSE"}\nINVARIANTS\n  Emit\n  GDone\n')
         rc, out = core.tlc('PushGen.tla', cfg, f'{rundir}/pushgen{sz}', workers=2, heap='2g', timeout=600)
         scs = [json.loads(m.group(1)) for m in re.finditer(r'<<"PUSHGEN", (".*")>>', out)]
         if 'No error has been found' not in out or not scs:
